@@ -50,6 +50,9 @@ func runC23(tr *vh.Trace, rnd *rand.Rand, nscen, nq int) {
 				t := g.anyTable()
 				q = g.extend(g.fixOn(t, t.cols[rnd.Intn(len(t.cols))]), 1+rnd.Intn(2), rnd.Intn(2) == 0)
 			}
+			if rnd.Intn(8) == 0 {
+				q = g.diffSetOp()
+			}
 			addWants(wants, q)
 			if q.size() > 12 {
 				i--
@@ -62,7 +65,12 @@ func runC23(tr *vh.Trace, rnd *rand.Rand, nscen, nq int) {
 			for _, q := range qs {
 				d.defineViews(q)
 				v := randVariant(rnd, q.Op == "sort")
-				if q.Op != "sort" && rnd.Intn(2) == 0 {
+				if diffCols(q) {
+					// sources with different columns: Lookup / Select with values for columns one
+					// source lacks
+					v.kind, v.mode = "req", qry.ReadMode
+					v.use = []string{"unique", "order", "group"}[rnd.Intn(3)]
+				} else if q.Op != "sort" && rnd.Intn(2) == 0 {
 					// favour explicit requirements: they allow Select and Lookup
 					v.kind = "req"
 					v.use = []string{"order", "group", "unique"}[rnd.Intn(3)]
@@ -224,9 +232,15 @@ func (cs *cursorSession) run() {
 		for i := 0; i < n; i++ {
 			// clearing the selection: sometimes in between, often at the end (the whole result
 			// must be back)
-			clear := cs.rnd.Intn(6) == 0 || (i == n-1 && cs.rnd.Intn(2) == 0)
+			clear := cs.rnd.Intn(6) == 0 || (i == n-1 && cs.rnd.Intn(2) == 0) ||
+				(i > 0 && diffCols(cs.q) && cs.rnd.Intn(2) == 0)
 			// (Select gets exactly the requirement columns, as joins and the repository's fuzz test do)
 			sels := cs.randSels(false)
+			if diffCols(cs.q) {
+				// union/intersect/minus take selection values for columns a source lacks
+				// (Union.Select: selConflict / removeNonexistentEmpty): add all other columns
+				sels = cs.allColsSels(sels)
+			}
 			ev := vh.E("Select", "clear", clear, "sels", selsJSON(sels, clear))
 			cs.nsel++
 			if !cs.guard(ev, func() {
@@ -431,6 +445,14 @@ func (cs *cursorSession) phase(first bool) bool {
 				}
 			}
 		}
+		// a Lookup may be implemented by Select + Get + Select(nil): the whole result must
+		// still be there afterwards, in both directions
+		for _, dir := range shuffledDirs(cs.rnd) {
+			if _, ok := scan(dir); !ok {
+				cs.flush(fwd)
+				return false
+			}
+		}
 	}
 	cs.flush(fwd)
 	return true
@@ -463,4 +485,55 @@ func (cs *cursorSession) lookup() bool {
 	cs.qq.Rewind()
 	cs.emit(vh.E("Rewind"))
 	return true
+}
+
+func shuffledDirs(rnd *rand.Rand) []Dir {
+	if rnd.Intn(2) == 0 {
+		return []Dir{Next, Prev}
+	}
+	return []Dir{Prev, Next}
+}
+
+// diffCols: the query is a union/intersect/minus of sources with different column sets
+func diffCols(q *Q) bool {
+	switch q.Op {
+	case "union", "intersect", "minus":
+		return len(q.L.cols) != len(q.R.cols)
+	}
+	return false
+}
+
+// allColsSels adds values for the columns not yet in sels, from the row sels was taken from
+// when there is one (else any values)
+func (cs *cursorSession) allColsSels(sels []selJSON) []selJSON {
+	var base []Val
+	for _, r := range cs.full {
+		ok := true
+		for _, s := range sels {
+			for i, hc := range cs.hdr.Columns {
+				if hc == s.C && r[i] != s.V {
+					ok = false
+				}
+			}
+		}
+		if ok {
+			base = r
+			break
+		}
+	}
+	for i, c := range cs.hdr.Columns {
+		has := false
+		for _, s := range sels {
+			has = has || s.C == c
+		}
+		if has {
+			continue
+		}
+		if base != nil {
+			sels = append(sels, selJSON{c, base[i]})
+		} else {
+			sels = append(sels, selJSON{c, cs.anyVal()})
+		}
+	}
+	return sels
 }
